@@ -42,6 +42,17 @@ PROPS["C18"] = dict(
 )
 
 
+PROPS["C12"] = dict(
+    level="exploration",
+    technique="property-based testing (rapid): round trip through an independent RESP encoder with generated read-boundary splits; differential streamTo vs normal read; native Go fuzzing of decode/re-encode stability (thorough)",
+    level_text="Generated value trees over every RESP3/RESP2 type and encoding variant, decoded under generated read splits and buffer sizes and compared with the generated tree; streaming reads compared with what a normal read returns. Sampled, deep (thousands to millions of trees).",
+    level_note="The harness encoder (kit/resp) is trusted to produce well-formed RESP; it is itself round-trip tested against its own decoder. " + LIMITS,
+    units=[
+        U("inpkg", "rueidis", "TestVerif_C12_Decode", T(8000), T(100000, shards=16)),
+        U("inpkg", "rueidis", "TestVerif_C12_Stream", T(8000), T(100000, shards=16)),
+    ],
+)
+
 # ---- END PROPS (new entries go above this line)
 
 # every property without a check is listed here with its reason (kept current while building)
